@@ -70,6 +70,7 @@ type Out struct {
 	Resumed *bool  `json:"resumed,omitempty"` // second connection was a TLS session resumption
 
 	Session int    `json:"session,omitempty"` // informational
+	Seq     int    `json:"seq,omitempty"`     // informational: first line index of the sequence this step belongs to
 	VpcErr  string `json:"vpcErr"`            // informational
 	TlsErr  string `json:"tlsErr"`            // informational: the server's own handshake error line
 	URL     string `json:"url"`               // informational
@@ -88,6 +89,20 @@ type In struct {
 	Present string `json:"present"`
 	// session
 	Paths []Path `json:"paths"`
+	World int    `json:"world"` // sessions with the same world share accounts, registry and lease numbers
+	// seq
+	Steps []Step `json:"steps"`
+}
+
+// Step is one request of a "seq" line: its own client identity, its own connection.
+type Step struct {
+	Cert Cert `json:"cert"`
+	Path Path `json:"path"`
+}
+
+type rawStep struct {
+	Cert json.RawMessage `json:"cert"`
+	Path json.RawMessage `json:"path"`
 }
 
 type rawIn struct {
@@ -97,6 +112,7 @@ type rawIn struct {
 	Reg   json.RawMessage   `json:"reg"`
 	Path  json.RawMessage   `json:"path"`
 	Paths []json.RawMessage `json:"paths"`
+	Steps []rawStep         `json:"steps"`
 }
 
 var (
@@ -187,6 +203,11 @@ func newGateway(ch *chain, n int) (*gateway, error) {
 		return nil, err
 	}
 	g.srv.ErrorLog = stdlog.New(g.errs, "", 0)
+	// harness instrumentation of the http.Server object (not of the code): tag every request context with the
+	// address of the client connection, so that the recorder can tell on whose connection a call was made
+	g.srv.ConnContext = func(ctx context.Context, c net.Conn) context.Context {
+		return context.WithValue(ctx, connKey{}, c.RemoteAddr().String())
+	}
 	if g.ln, err = net.Listen("tcp", "127.0.0.1:0"); err != nil {
 		return nil, err
 	}
@@ -203,6 +224,7 @@ type client struct {
 	cfg  *tls.Config // the transport's (http.Transport adds "h2" to it when HTTP/2 is forced)
 	wcfg *tls.Config // the websocket dialer's: HTTP/1.1 only
 	tr   *http.Transport
+	col  *collector // back-end calls made on this client's connections are collected here
 	mu   sync.Mutex
 	last string // local address of the most recently dialled connection
 }
@@ -211,8 +233,8 @@ type client struct {
 // the akash client itself speaks HTTP/1.1. Websocket routes are always HTTP/1.1.
 func (c *client) useH2() { c.tr.ForceAttemptHTTP2 = true }
 
-func (g *gateway) newClient(chain [][]byte, priv *ecdsa.PrivateKey, keepAlive bool, cache tls.ClientSessionCache) *client {
-	c := &client{g: g}
+func (g *gateway) newClient(col *collector, chain [][]byte, priv *ecdsa.PrivateKey, keepAlive bool, cache tls.ClientSessionCache) *client {
+	c := &client{g: g, col: col}
 	c.cfg = &tls.Config{InsecureSkipVerify: true, MinVersion: tls.VersionTLS13, ClientSessionCache: cache, ServerName: "gateway"} // nolint: gosec
 	if len(chain) > 0 {
 		c.cfg.Certificates = []tls.Certificate{{Certificate: chain, PrivateKey: priv}}
@@ -230,6 +252,9 @@ func (c *client) dial(ctx context.Context, network, addr string) (net.Conn, erro
 		c.mu.Lock()
 		c.last = conn.LocalAddr().String()
 		c.mu.Unlock()
+		if c.col != nil {
+			c.g.back.bindConn(conn.LocalAddr().String(), c.col)
+		}
 	}
 	return conn, err
 }
@@ -330,21 +355,102 @@ func decode(raw json.RawMessage) (In, rawIn, error) {
 }
 
 // setup builds the world of a line: registry on chain, presented chain, its owners registered with the back end.
+// sharedWorld: what sessions of one world have in common (published once, read-only afterwards).
+type sharedWorld struct {
+	once    sync.Once
+	keys    map[string]*ecdsa.PrivateKey
+	onchain map[string][]byte
+	err     error
+}
+
+var sharedWorlds sync.Map // world id -> *sharedWorld
+
 func (g *gateway) setup(ch *chain, seed int64, in In) (*world, [][]byte, *ecdsa.PrivateKey, *collector, error) {
-	w, err := newWorld(seed, in.I)
+	id := in.I
+	if in.World != 0 {
+		id = in.World
+	}
+	w, err := newWorld(seed, id)
 	if err != nil {
 		return nil, nil, nil, nil, err
 	}
 	w.noEdges = in.Kind == "session"
-	if err = w.publish(ch, in.Reg); err != nil {
-		return nil, nil, nil, nil, err
+	owners := []string{w.X.String(), w.Y.String()}
+	if in.World == 0 {
+		if err = w.publish(ch, in.Reg); err != nil {
+			return nil, nil, nil, nil, err
+		}
+	} else {
+		v, _ := sharedWorlds.LoadOrStore(in.World, &sharedWorld{})
+		sw := v.(*sharedWorld)
+		sw.once.Do(func() {
+			if sw.err = w.publish(ch, in.Reg); sw.err == nil {
+				sw.keys, sw.onchain = w.keys, w.onchain
+			}
+		})
+		if sw.err != nil {
+			return nil, nil, nil, nil, sw.err
+		}
+		// same accounts, registry and lease numbers; own copies of the maps and an own random stream
+		w.keys, w.onchain = map[string]*ecdsa.PrivateKey{}, map[string][]byte{}
+		for k, v := range sw.keys {
+			w.keys[k] = v
+		}
+		for k, v := range sw.onchain {
+			w.onchain[k] = v
+		}
+		w.reseed(seed, in.I)
+		// calls that cannot be attributed to a connection (IsActive) go to the session of the account they name
+		owners = nil
+		if a, err := w.account(in.Cert.Cn); err == nil {
+			owners = []string{a.String()}
+		}
 	}
-	chain, priv, err := w.present(in.Cert)
-	if err != nil {
-		return nil, nil, nil, nil, err
+	var chain [][]byte
+	var priv *ecdsa.PrivateKey
+	if in.Kind != "seq" {
+		if chain, priv, err = w.present(in.Cert); err != nil {
+			return nil, nil, nil, nil, err
+		}
 	}
-	col := g.back.register(w.X.String(), w.Y.String())
+	col := g.back.register(owners...)
 	return w, chain, priv, col, nil
+}
+
+// runSeq: a sequence of requests by different client identities of ONE world (same registry, same lease numbers)
+// on this worker's gateway, one after the other, each on a connection of its own. One recorded line per step.
+func (g *gateway) runSeq(ch *chain, seed int64, in In, ri rawIn, emit func(Out)) {
+	w, _, _, col, err := g.setup(ch, seed, in)
+	if err != nil {
+		emit(Out{Kind: "case", I: in.I, Reg: ri.Reg, Served: []Call{}, Err: err.Error()})
+		return
+	}
+	defer g.back.unregister(col)
+	for k, st := range in.Steps {
+		out := Out{Kind: "case", I: in.I + k, Cert: ri.Steps[k].Cert, Reg: ri.Reg, Path: ri.Steps[k].Path, Served: []Call{}, Seq: in.I}
+		chain, priv, err := w.present(st.Cert)
+		if err != nil {
+			out.Err = err.Error()
+			emit(out)
+			continue
+		}
+		req, err := w.request(st.Path, g.provider)
+		if err != nil {
+			out.Err = err.Error()
+			emit(out)
+			continue
+		}
+		out.URL = req.method + " " + req.path
+		g.vpc(chain, &out)
+		c := g.newClient(col, chain, priv, false, nil)
+		res := c.do(req)
+		c.close()
+		out.Tls, out.TlsErr, out.Status, out.Err = res.tls, res.tlsErr, res.status, res.err
+		for _, rc := range append(col.take(), g.back.takeOrphans()...) {
+			out.Served = append(out.Served, w.project(rc, g.provider))
+		}
+		emit(out)
+	}
 }
 
 func (g *gateway) vpc(chain [][]byte, out *Out) {
@@ -370,7 +476,7 @@ func (g *gateway) runCase(ch *chain, seed int64, in In, ri rawIn) (out Out) {
 	}
 	out.URL = req.method + " " + req.path
 	g.vpc(chain, &out) // (a) the verification callback, directly
-	c := g.newClient(chain, priv, false, nil)
+	c := g.newClient(col, chain, priv, false, nil)
 	defer c.close()
 	res := c.do(req) // (b) a real connection
 	out.Tls, out.TlsErr, out.Status, out.Err = res.tls, res.tlsErr, res.status, res.err
@@ -403,7 +509,7 @@ func (g *gateway) runResume(ch *chain, seed int64, in In, ri rawIn) (out Out) {
 	out.URL = req.method + " " + req.path
 	g.vpc(chain, &out)
 	cache := tls.NewLRUClientSessionCache(4)
-	c1 := g.newClient(chain, priv, false, cache)
+	c1 := g.newClient(col, chain, priv, false, cache)
 	r1 := c1.do(first)
 	c1.close()
 	if r1.err != "" {
@@ -429,9 +535,9 @@ func (g *gateway) runResume(ch *chain, seed int64, in In, ri rawIn) (out Out) {
 	var c2 *client
 	switch in.Present {
 	case "same":
-		c2 = g.newClient(chain, priv, false, cache)
+		c2 = g.newClient(col, chain, priv, false, cache)
 	case "nocert":
-		c2 = g.newClient(nil, nil, false, cache)
+		c2 = g.newClient(col, nil, nil, false, cache)
 	default:
 		out.Err = "unknown present " + in.Present
 		return
@@ -459,7 +565,7 @@ func (g *gateway) runSession(ch *chain, seed int64, n int, in In, ri rawIn, emit
 	defer g.back.unregister(col)
 	var probe Out
 	g.vpc(chain, &probe)
-	c := g.newClient(chain, priv, true, nil)
+	c := g.newClient(col, chain, priv, true, nil)
 	defer c.close()
 	if n%2 == 0 {
 		c.useH2() // free-running: half of the sessions multiplex their plain requests over one HTTP/2 connection
@@ -550,7 +656,7 @@ func Main(args []string) int {
 			return 2
 		}
 		switch in.Kind {
-		case "case", "resume":
+		case "case", "resume", "seq":
 			single = append(single, job{in, ri})
 		case "session":
 			sessions = append(sessions, job{in, ri})
@@ -581,6 +687,8 @@ func Main(args []string) int {
 				for j := range jobs {
 					if j.in.Kind == "resume" {
 						emit(g.runResume(ch, *seed, j.in, j.ri))
+					} else if j.in.Kind == "seq" {
+						g.runSeq(ch, *seed, j.in, j.ri, emit)
 					} else {
 						emit(g.runCase(ch, *seed, j.in, j.ri))
 					}
